@@ -145,6 +145,11 @@ class ScriptedRandom:
     def random(self):
         return self.uniform(0, 1)
 
+    def __getattr__(self, name):
+        # anything else the module under test may use from `random` is the real thing
+        import random as _r
+        return getattr(_r, name)
+
 
 def injector(w, target, workload, src='src'):
     """Harness process: hands the packets of a workload [(t, flow, size), ...] to target.put at their instants;
